@@ -33,7 +33,7 @@ def _leaves(eg):
             yield x
 
 
-def scn(sym, cov, props, children, body="fall", env=(), eager=False, T=1, J=2):
+def scn(sym, cov, props, children, body="fall", env=(), eager=False, T=1, J=2, ext="R"):
     import anyio
     from anyio import TASK_STATUS_IGNORED, CancelScope, TaskHandle
 
@@ -181,7 +181,7 @@ def scn(sym, cov, props, children, body="fall", env=(), eager=False, T=1, J=2):
                 # somebody else holding the task group starts a task in it (e.g. a BlockingPortal call)
                 if "tg" in tgref:
                     try:
-                        tgref["tg"].start_soon(child, "ext", "R", 0, tgref["tg"])
+                        tgref["tg"].start_soon(child, "ext", ext, 0, tgref["tg"])
                         state["ext_spawn"] = "accepted-after-exit" if state["exited"] else "accepted"
                     except RuntimeError:
                         state["ext_spawn"] = "refused"
@@ -314,6 +314,13 @@ def scn(sym, cov, props, children, body="fall", env=(), eager=False, T=1, J=2):
             bad("C02", "foreign-exception-in-group", repr(s))
     if not raised and "group" in out and not native:
         bad("C02", "group-raised-although-nothing-failed", [repr(x) for x in out["group"]])
+    # a cancellation coming from an enclosing scope passes through: if the enclosing scope was cancelled while
+    # the block was still running (at least two cycles before it was left), the block must not complete normally
+    outer_fired = [cy for (k, cy) in state["fired"] if k == "outer"]
+    if outer_fired and not native and "exit_cycle" in state and outer_fired[0] < state["exit_cycle"] - 2:
+        if not out.get("outer_caught") and "group" not in out and not out.get("cancelled_out"):
+            bad("C02", "enclosing-cancellation-did-not-pass-through", {"outer_cancelled_at": outer_fired[0], "block_left_at": state["exit_cycle"]})
+        cov.hit("enclosing-scope-cancelled-during-exit-wait", any(k == "group" for (k, _c) in state["fired"]))
     if not raised and not native:
         outer_cancelled = any(k == "outer" for (k, _c) in state["fired"])
         if out.get("cancelled_out") and not outer_cancelled:
